@@ -14,7 +14,55 @@ fn raw(tier: Tier) -> proptest::strategy::BoxedStrategy<Raw> {
     }
 }
 
+/// A `subscribed()` subscriber (default constructor: 16 slots, blocking) that is held inside its
+/// first callback while 20 notifying actions are dispatched. D1 is registered before it and signals
+/// every notification: when D1 has been told about 18 of them the reducer is (at the latest) waiting
+/// for room in C's channel - 1 in the callback, 16 queued, the 18th in its hands - and only then is
+/// C let go. Everything must reach C before stop() / the drop returns.
+fn build_lagging_default_subscriber(raw: &Raw, droppable: bool) -> Scenario {
+    let mut b = ScnB::new();
+    let s = b.store(if droppable { "c15" } else { "c04" }, SMALL_CAPS4[pick(knob(raw, 0), 4)], Pol::Block, CTORS[pick(knob(raw, 2), 3)].clone());
+    b.s.stores[s].droppable = droppable;
+    let r0 = b.reducer(s);
+    let d1 = b.sub(SubKind::Direct);
+    let c = b.sub(SubKind::Channeled { cap: 16, pol: Pol::Block, default_ctor: true });
+    let cg = b.gate();
+    b.sub_mut(c).gate = Some(cg);
+    b.sub_mut(c).via_trait = knob(raw, 3) % 2 == 0;
+    b.s.prelude.push(Op::Subscribe { store: s, sub: d1 });
+    b.s.prelude.push(Op::Subscribe { store: s, sub: c });
+    let progress = b.gate();
+    let th = b.thread();
+    let n = 19 + pick(knob(raw, 4), 4);
+    for i in 0..n {
+        let a = b.action(s, (i % 4) as u8);
+        b.act_mut(a).signal = Some(progress);
+        b.s.threads[th].push(Op::Dispatch { act: a, via: VIAS[(knob(raw, 5) as usize + i) % 3] });
+    }
+    let ctl = b.thread();
+    b.s.threads[ctl].push(Op::GateAwait { gate: progress, entered: 18 });
+    b.s.threads[ctl].push(Op::Stall(stall_of(knob(raw, 6))));
+    b.s.threads[ctl].push(Op::GateOpen { gate: cg });
+    let done = b.gate();
+    b.s.threads[th].push(Op::GateSignal { gate: done });
+    let st = b.thread();
+    b.s.threads[st].push(Op::GateAwait { gate: done, entered: 1 });
+    if droppable {
+        b.s.threads[st].push(Op::DropDroppable { store: s });
+    } else {
+        b.s.threads[st].push(Op::Stop { store: s, via_trait: false });
+    }
+    b.s.threads[st].push(Op::GetState { store: s });
+    let _ = r0;
+    b.s.epilogue.push(Op::GetState { store: s });
+    b.finish()
+}
+const SMALL_CAPS4: [usize; 4] = [1, 2, 4, 16];
+
 fn build_barrier(raw: &Raw, droppable: bool) -> Scenario {
+    if (knob(raw, 1) >> 6) % 16 == 0 {
+        return build_lagging_default_subscriber(raw, droppable);
+    }
     let mut b = ScnB::new();
     let cap = CAPS[pick(knob(raw, 0), CAPS.len())];
     let policy = POLS_MOSTLY_BLOCK[pick(knob(raw, 1), POLS_MOSTLY_BLOCK.len())];
@@ -208,7 +256,30 @@ fn check_barrier(id: &'static str, scn: &Scenario, h: &History) -> Outcome {
                 out.viol(format!("action {} dispatched after {} returned was processed", disp.act, word));
             }
         }
-        // (c) nothing runs after the barrier
+        // (c) nothing runs after the barrier - including on_unsubscribe of a subscriber that was
+        // registered before the stop began (it was released by then, once) and on_error of a middleware
+        for (pos, r) in h.recs.iter().enumerate().skip(sr + 1) {
+            if let Some(cl) = d.cleanup_in {
+                if pos > cl {
+                    break; // the harness' own clean-up (stops and unsubscribes everything once more) is not judged
+                }
+            }
+            match &r.ev {
+                Ev::Unsub { sub } => {
+                    if let Some((_, iv)) = sd.subs.iter().find(|(x, _)| x == sub) {
+                        if iv.add_ret.map(|x| x < si).unwrap_or(false) && !scn.sub(*sub).fn_wrapped {
+                            out.viol(format!("on_unsubscribe of subscriber {} (registered before {} was called) ran at @{} after {} had returned at @{}", sub, word, pos, word, sr));
+                        }
+                    }
+                }
+                Ev::MwErr { comp } => {
+                    if sd.middlewares.iter().any(|(c, _)| c == comp) {
+                        out.viol(format!("on_error of middleware {} ran at @{} after {} had returned at @{}", comp, pos, word, sr));
+                    }
+                }
+                _ => {}
+            }
+        }
         for (pos, r) in h.recs.iter().enumerate().skip(sr + 1) {
             let (act, what): (Option<ActId>, &str) = match &r.ev {
                 Ev::MwIn { act, .. } | Ev::MwOut { act, .. } => (Some(*act), "middleware hook"),
@@ -284,9 +355,10 @@ fn check_barrier(id: &'static str, scn: &Scenario, h: &History) -> Outcome {
                 out.class("channeled-subscriber");
             }
         }
-        // required direct notifications are part of the run (pipe Notify findings) and the run ended before the barrier
-        for m in findings_of(&p, &[Kind::Notify]) {
-            out.notes.push(m);
+        // "completely processed - reduced, subscribers notified": a direct subscriber that was
+        // registered before an accepted action was dispatched (and stayed) was told about it
+        for f in p.findings.iter().filter(|f| f.kind == Kind::Notify && f.store == s && f.msg.contains("was not notified")) {
+            out.viol(format!("[Notify] store {} @{}: {}", f.store, f.pos, f.msg));
         }
         // final state: every clone sees the state after the last reduced action
         for o in d.ops.values() {
@@ -298,6 +370,20 @@ fn check_barrier(id: &'static str, scn: &Scenario, h: &History) -> Outcome {
         }
         // second stop returned (it is in the log) - nothing to add beyond (c)
         if id == "C15" {
+            // "exactly the effect of stop()": the effects of the actions accepted before the drop
+            // was called have run when it returns (what stop() owes them, C11)
+            let mut v = vec![];
+            let mut lost = vec![];
+            check_effects(&d, &p, false, &mut v, &mut lost);
+            for (e, a) in lost {
+                if d.store_of_act(a) != s {
+                    continue;
+                }
+                let accepted_before = d.disp_of(a).map(|x| x.ok == Some(true) && x.ret.map(|r| r < si).unwrap_or(false)).unwrap_or(false);
+                if accepted_before {
+                    out.viol(format!("effect {} returned for action {} (accepted before the drop) had not been executed when the drop returned", e, a));
+                }
+            }
             // subscribers released: every whole-run direct/channeled subscriber got on_unsubscribe before the drop returned
             // ... and so did every subscriber registered through a clone while the drop was under
             // way or after it: once the drop and its own registration have both returned
